@@ -37,6 +37,8 @@ def run(ctx):
         'D5 re-binding of view-wrapped storage (as done by copy_like through _expand_phases / row replacement) drops the cached mass/volume views',
         'D6 after copy_like / mix_from change the phase tuple the shared lookup cache is re-selected for the new (phases, chemicals) key',
         'D7 every attribute stored on an instance created with K.__new__(K) in the stream / indexer / sparse modules is storable there',
+        'D9 MultiStream.__init__ does not call Stream.__init__; every slot that the copy / proxy / flow_proxy / link_with / unlink / copy_like methods it inherits read '
+        'from self is assigned (transitively) by MultiStream.__init__ as well',
         'D8 copy_like between property packages maps positions through index_overlap: its memo is keyed by the ordered CAS tuple and kept on the package whose table the positions come from',
     ]
     ctx.not_decided = ['equality of observable state after unpickling', 'Chemical/Thermo pickles beyond the argument tuple']
@@ -60,6 +62,8 @@ def run(ctx):
     d6 = ctx.rule('D6', 'the per-(phases, chemicals) index cache of the copy target is refreshed after its inputs change', floor=3)
     from ..generic import index_cache_follows_inputs
     index_cache_follows_inputs(prog, d6)
+    d9 = ctx.rule('D9', 'slots read by the inherited copy/proxy/link methods are initialised by MultiStream.__init__ too', floor=5)
+    ctor_slot_coverage(ctx, d9)
     d8 = ctx.rule('D8', 'cross-package copies: the position memo of index_overlap is keyed and owned consistently', floor=2)
     from .C01 import overlap_key_rule
     overlap_key_rule(ctx, d8)
@@ -409,3 +413,38 @@ def ctor_args(ctx, d3):
                 d3.ok(cons, 'argument is used (%d uses)' % value_uses, f)
             else:
                 d3.ok(cons, 'flag-like argument (only tested)', f)
+
+
+def ctor_slot_coverage(ctx, rule):
+    """MultiStream inherits proxy / flow_proxy / copy / link_with / unlink / copy_like from Stream but has a constructor of its own
+    that does not call Stream.__init__.  A slot those methods READ from self and that only Stream.__init__ assigns is missing on
+    every MultiStream built through its constructor: the method raises AttributeError instead of sharing / copying."""
+    prog = ctx.prog
+    eff = Effects(prog)
+    S = prog.cls('Stream', ST)
+    M = prog.cls('MultiStream', MS)
+    if M.methods.get('__init__') is None or M.methods['__init__'].cls is not M:
+        raise AnalysisError('MultiStream.__init__ not found')
+    mi = eff.rebinds(M, '__init__')
+    si = eff.rebinds(S, '__init__')
+    slots = set()
+    for k in S.mro():
+        e = k.aliases.get('__slots__')
+        if isinstance(e, (ast.Tuple, ast.List)):
+            slots |= {x.value for x in e.elts if isinstance(x, ast.Constant) and isinstance(x.value, str)}
+    n = 0
+    for name in ('proxy', 'flow_proxy', 'copy', 'link_with', 'unlink', 'copy_like', 'copy_flow', 'copy_thermal_condition'):
+        f = prog.find_method(M, name)
+        if f is None or f.cls is M:
+            continue            # overridden: written against MultiStream's own state
+        reads = sorted({x.attr for x in walk_no_nested(f.node) if isinstance(x, ast.Attribute) and isinstance(x.ctx, ast.Load) and src(x.value) == 'self'
+                        and x.attr in slots})
+        missing = [r for r in reads if r in si and r not in mi]
+        n += 1
+        if missing:
+            rule.fail('MultiStream.' + name, 'slot-not-initialised-' + missing[0], 'the inherited method reads self.%s, which Stream.__init__ assigns but MultiStream.__init__ '
+                      'does not: on a MultiStream built by its constructor the method raises AttributeError' % missing[0], f, f.node)
+        else:
+            rule.ok('MultiStream.' + name, 'every slot it reads from self (%s) is assigned by MultiStream.__init__' % ', '.join(reads[:6]), f)
+    if n < 5:
+        raise AnalysisError('MultiStream: expected >= 5 inherited copy/proxy/link methods, found %d' % n)
